@@ -189,14 +189,20 @@ func Explode(dstDir string, inputShard string) error {
 		}
 	}
 
-	// best effort rename shards.
+	// best effort rename shards. The compound shard is gone at this point, so a
+	// repository whose shard could not be renamed is lost until it is reindexed:
+	// keep going, but do not report success.
+	var renameErr error
 	for tmpFn, dstFn := range exploded {
 		if err := os.Rename(tmpFn, dstFn); err != nil {
 			log.Printf("explode: rename failed: %s", err)
+			if renameErr == nil {
+				renameErr = fmt.Errorf("zoekt.Explode: rename failed: %w", err)
+			}
 		}
 	}
 
-	return nil
+	return renameErr
 }
 
 type shardBuilderFunc func(ib *ShardBuilder)
